@@ -26,4 +26,6 @@ let table : (Stdlib.String.t * (z list -> z list)) list = [   (* Stdlib.: the ex
   ("staticdecl", run_staticdecl);
   ("xmidoc_enc", run_xmidoc_enc);
   ("xmidoc_dec", run_xmidoc_dec);
+  ("jsondoc_enc", run_jsondoc_enc);
+  ("jsondoc_dec", run_jsondoc_dec);
 ]
